@@ -446,7 +446,7 @@ def fault_grid(backend, direction, length, chunk, every_boundary):
             out += [{'kind': 'mid', 'j': j} for j in js] + [{'kind': 'sink', 'j': j} for j in js]
         return out
     out.append({'kind': 'pre'})
-    codes = [500, 503, 429, 403] + ([401] if backend == 'b2' else [404])
+    codes = [500, 503, 429, 403, 404] + ([401] if backend == 'b2' else [])
     out += [{'kind': 'status', 'code': c} for c in codes]
     if backend == 'b2':
         out += [{'kind': 'status', 'code': 429, 'ra': True}, {'kind': 'status', 'code': 503, 'ra': True}]
@@ -570,6 +570,34 @@ def nested_url_probes(out, budget):
             _ = case
 
 
+def b2_missing_object_probe(out, budget):
+    """no injected fault at all: B2 download_stream / download of a name that does not exist (the service answers 404 every time)"""
+    for method in ('download_stream', 'download'):
+        plan = faults.Plan([], limit=LIMIT)
+        del SLEEPS[:]
+
+        async def go():
+            b, f, tr = _b2_pair(plan, 'down')
+            exc = None
+            try:
+                if method == 'download_stream':
+                    await b.download_stream(NAME, io.BytesIO(), 4)
+                else:
+                    await b.download(NAME)
+            except (Exception, faults.Watchdog, RecursionError) as e:  # noqa: BLE001
+                exc = e
+            await b.close()
+            return exc, len(tr.requests), f.n_tokens
+        exc, nreq, tokens = loop().run_until_complete(go())
+        out.evaluations += 1
+        out.count('probe:b2-missing-object:' + method)
+        outcome = 'ok' if exc is None else classify(exc)
+        if plan.attempts > budget or outcome == 'fuel':
+            out.violation('b2:unbounded-reauth:status-404', f'B2 {method} of a name that does not exist (no injected fault): {min(plan.attempts, LIMIT)}+ GET requests, {tokens - 1} re-authentications, '
+                          f'{len(SLEEPS)} back-off sleeps, stopped by the watchdog (budget: {budget} tries)',
+                          {'kind': 'missing-object-probe', 'method': method, 'outcome': outcome, 'get_requests': plan.attempts, 'requests': nreq, 'authorisations': tokens})
+
+
 def d9_recursion_probe(out, reclimit):
     """persistent 500 on the B2 upload under a lowered recursion limit: how far does the real code go, does it ever sleep?
     (backoff formats the chained exception of every retry, which is quadratic in the recursion depth — hence the small limit)"""
@@ -651,6 +679,7 @@ def run(out, drv, info):
             evaluate(case, obs, m, cfg, out)
         out.extra['case_loop_s'] = round(time.time() - t0, 1)
         nested_url_probes(out, budgets['b2'])
+        b2_missing_object_probe(out, budgets['b2'])
         d9_recursion_probe(out, 160 if out.tier == 'quick' else 400)
         sigs = {}
         for v in out.violations:
@@ -660,10 +689,31 @@ def run(out, drv, info):
         shutil.rmtree(WORK / str(os.getpid()), ignore_errors=True)
 
 
+class Outcome_stub:
+    """just enough of common.Outcome for a probe run from `replay`"""
+
+    def __init__(self):
+        self.evaluations, self.violations = 0, []
+
+    def count(self, *a):
+        pass
+
+    def violation(self, sig, what, rp):
+        self.violations.append((sig, what))
+
+
 def replay(path, drv):
     _patch_sleeps()
     d = json.load(open(path))
     rp = d.get('replay', d)
+    if rp.get('kind') == 'missing-object-probe':
+        o = Outcome_stub()
+        b2_missing_object_probe(o, 4)
+        for v in o.violations:
+            print('replay:', v[0], '—', v[1])
+        if not o.violations:
+            print('replay: the call ended within the budget')
+        return 1 if o.violations else 0
     if rp.get('kind') != 'case':
         print('replay kind not supported:', rp.get('kind'))
         return 2
